@@ -206,7 +206,7 @@ pub fn zoo(thorough: bool) -> Vec<Model> {
     if thorough {
         v.push(m("pcsaft/water_np(4C)", "PcSaft", 640.0,
             ResidualModel::PcSaft(pcsaft(&shipped("pcsaft/rehner2020.json", &["water_4C"]), &[]))));
-        v.push(m("saftvrmie/water?", "SaftVRMie", 300.0,
+        v.push(m("saftvrmie/propane", "SaftVRMie", 300.0,
             ResidualModel::SaftVRMie(SaftVRMie::new(Arc::new(from_json_str::<SaftVRMieParameters>(&shipped("saftvrmie/lafitte2013.json", &["propane"]), &[]))))));
         v.push(m("saftvrqmie/helium_fh2", "SaftVRQMie", 6.0,
             ResidualModel::SaftVRQMie(SaftVRQMie::new(Arc::new(
